@@ -109,7 +109,7 @@ Proof.
       split; [now apply hext_frame|]. split; [reflexivity|]. exists [b]. reflexivity.
     + split; [split; [lia | auto]|]. split; [reflexivity|]. exists []. reflexivity.
   - destruct (substructure ats (s_heap s) (s_cur s)) as [[[h2 o2] e]|err] eqn:E.
-    + destruct (sub_spec _ _ _ _ _ _ (proj1 (proj1 Uc)) E) as [h1 [sub0 [X [I0 [C0 [B0 [Fr R]]]]]]].
+    + destruct (sub_spec _ _ _ _ _ _ (proj1 (proj1 Uc)) E) as [h1 [sub0 [X [I0 [C0 [B0 [_ [Fr R]]]]]]]].
       pose proof (fix_both_good h1 sub0 I0) as G. rewrite R in G. destruct G as [_ [HL [Un _]]].
       assert (hext (s_heap s) h2) as X2.
       { destruct X as [Lx E1]. split; [destruct HL; lia|]. intros r Hr. rewrite Un; [apply E1; exact Hr | lia |].
@@ -167,6 +167,7 @@ Theorem transaction_atomic : forall s ops, W s -> snd (step s OEnter) = None ->
 Proof.
   intros s ops Ws En Ok Bo. pose proof (W_cur s Ws) as Uc.
   pose proof (step_W s OEnter Ws I) as W1. cbn [step] in *. unfold lift, enter in *.
+  destruct (o_backup (s_cur s)) as [b0|] eqn:Eb0; [discriminate|].
   destruct (copy_mol true true (s_heap s) (s_cur s)) as [[h1 b]|e] eqn:E; [|discriminate].
   destruct (copy_mol_spec _ _ _ _ _ _ (proj1 (proj1 Uc)) E) as [cb [Eb [_ [_ [_ V]]]]]. cbn [ok fst snd] in *.
   set (bkv := mkBk (o_atoms b) (o_adj b) (o_cache b) (o_changed b) (o_name b) (o_meta b)) in *.
